@@ -4,3 +4,4 @@ import Model.Slice
 import Model.Num
 import Model.Bonferroni
 import Model.DepGraph
+import Model.EnvPersist
